@@ -94,6 +94,11 @@ class Emit:
                         fo = s.tr.find(_file, m, None, _self_like)
                         if free and fo.get("impl_self"):
                             return None
+                        for p_ in fo["params"]:
+                            if p_["name"] == "self" and not p_.get("ref") and not p_["ty"].replace(" ", "").startswith("Pin<"):
+                                # `fn helper(self)` on a Copy type copies the whole buffer onto the stack for every call: the values
+                                # are the same, the stack use is not (a 16 MiB buffer overflows it) — not a behaviour-preserving helper
+                                raise Unsupported("helper %s takes self by value (copies the buffer)" % m)
                     except Unsupported:
                         return None
                     s.in_progress.add(m)
